@@ -551,10 +551,13 @@ def _(E, p):
     out = [coulomb_gaussian_s(r, 1.3), coulomb_gaussian_p(r, 0.7), coulomb_gaussian_s(r, 1.3, normalized=False)]
     pts = E.arr("points", _pts3(7, 100, 1.5))
     cs, als, cens = E.arr("coeffs_s", np.array([1.0, 0.5])), E.arr("alphas_s", np.array([0.8, 2.0])), E.arr("centers_s", _pts3(2, 101, 0.5))
+    norm = bool((p // 2) % 2)
     if p % 2:
-        out.append(coulomb_potential(pts, cens, cs, als, centers_p=E.arr("centers_p", _pts3(1, 102, 0.5)), coeffs_p=E.arr("coeffs_p", np.array([0.3])), alphas_p=E.arr("alphas_p", np.array([1.1]))))
+        out.append(coulomb_potential(pts, cens, cs, als, centers_p=E.arr("centers_p", _pts3(1, 102, 0.5)), coeffs_p=E.arr("coeffs_p", np.array([0.3])),
+                                     alphas_p=E.arr("alphas_p", np.array([1.1])), normalized=norm))
     else:
-        out.append(coulomb_potential(pts, cens, cs, als))
+        out.append(coulomb_potential(pts, cens, cs, als, normalized=norm))
+    out.append(coulomb_gaussian_p(r, 0.7, normalized=norm))
     c, a = load_atomic_gaussian_params(["H", 6, "N", 8, "Cl", "c"][p % 6])
     return out + [c, a]
 
